@@ -188,6 +188,49 @@ emit_ioc_value(arg_t *arg, struct asn1p_ioc_cell_s *cell) {
                 return -1;
             }
         case ATV_UNPARSED:
+            if(cv_type->expr_type == ASN_BASIC_OBJECT_IDENTIFIER
+               || cv_type->expr_type == ASN_BASIC_RELATIVE_OID) {
+                /*
+                 * An OBJECT IDENTIFIER value given by numbers, { 1 2 name(3) }:
+                 * emit its BER contents so that the row can be matched.
+                 */
+                const char *p = (const char *)expr_value->value->value.string.buf;
+                unsigned long arcs[64];
+                size_t narcs = 0;
+                int bad = 0;
+                while(*p && !bad) {
+                    if(*p >= '0' && *p <= '9') {
+                        char *end;
+                        if(narcs == 64) { bad = 1; break; }
+                        arcs[narcs++] = strtoul(p, &end, 10);
+                        p = end;
+                    } else if((*p >= 'a' && *p <= 'z')
+                              || (*p >= 'A' && *p <= 'Z')) {
+                        /* name(number) is fine, a bare name needs resolution */
+                        while(*p && *p != '(' && *p != ' ' && *p != '}') p++;
+                        if(*p != '(') bad = 1;
+                    } else {
+                        p++;
+                    }
+                }
+                int rel = cv_type->expr_type == ASN_BASIC_RELATIVE_OID;
+                if(!bad && narcs >= (rel ? 1 : 2)) {
+                    size_t i, n = 0;
+                    OUT("(uint8_t *)\"");
+                    for(i = 0; i < narcs; i++) {
+                        unsigned long a = arcs[i];
+                        uint8_t tmp[10];
+                        int k = 0, j;
+                        if(!rel && i == 0) { a = arcs[0] * 40 + arcs[1]; i = 1; }
+                        do { tmp[k++] = a & 0x7f; a >>= 7; } while(a);
+                        for(j = k - 1; j >= 0; j--, n++)
+                            OUT("\\x%02x", tmp[j] | (j ? 0x80 : 0));
+                    }
+                    OUT("\", %zu };", n);
+                    OUT(" /* %s */\n", asn1f_printable_value(expr_value->value));
+                    return 0;
+                }
+            }
             OUT("\"not supported\", 0 };\n");
             FATAL("Inappropriate value %s for type %s",
                   asn1f_printable_value(expr_value->value), MKID(cell->value));
